@@ -304,17 +304,20 @@ section SrcCtor
 open TonVerif.Generated.CellCtor TonVerif.Proofs.SrcCellCtor
 
 /-- For ALL cell types (also unknown ones), bit strings (any length) and lists of child infos (any number, any contents):
-the regenerated constructor and the hand model take the same decision to raise and return the same cell info; and the
+the regenerated constructor and the hand model take the same decision to raise and return the same cell info (level mask,
+`_hashes`, `_depths`), and the other attributes the constructor sets are the model's: `_hash` = `CellInfo.hash` (the LAST entry of
+`_hashes`), `_descriptors`, `_data_bytes` (`CtorOut.ofModel`, Model/CellCtorView.lean); and the
 regenerated `get_hash` / `get_depth` / `get_data_bytes` / `resolve_mask` (what other cells and C11 read from a constructed cell)
 are the hand model's. -/
 theorem c02_src_constructor (H : Bytes → Bytes) (kind : Int) (bits : Bits) (refs : List CellInfo) :
-    init H bits refs kind = construct H kind bits refs ∧
+    init H bits refs kind = (construct H kind bits refs).map CtorOut.ofModel ∧
+    (init H bits refs kind).map CtorOut.toInfo = construct H kind bits refs ∧
     resolve_mask (self_type_ := kind) (self_refs := refs) (self_bits := bits) = resolveMask kind bits refs ∧
     get_data_bytes (self_bits := bits) = some (dataBytes bits) ∧
     (∀ (c : CellInfo) (l : Nat),
       get_hash l (self_level_mask := c.mask) (self_type_ := c.kind) (self_bits := c.bits) (self__hashes := c.hashes) = c.getHash l ∧
       get_depth l (self_level_mask := c.mask) (self_type_ := c.kind) (self_bits := c.bits) (self__depths := c.depths) = c.getDepth l) :=
-  ⟨src_construct_eq_model H kind bits refs, resolve_mask_eq kind bits refs, get_data_bytes_eq bits,
+  ⟨src_construct_eq_model H kind bits refs, src_construct_info H kind bits refs, resolve_mask_eq kind bits refs, get_data_bytes_eq bits,
     fun c l => ⟨get_hash_eq l c, get_depth_eq l c⟩⟩
 
 /-- the hashing loop alone: `calculate_hashes` on a fresh cell (empty `_hashes` / `_depths`) is the fold of the hand model's
@@ -353,6 +356,10 @@ example : (srcInfo toyH tree0).isSome = true := by
 example (H : Bytes → Bytes) (i : CellInfo) : init H (bytesToBits ([1, 1] ++ List.replicate 34 0)) [i] 1 = none := by
   rw [(c02_src_constructor H _ _ _).1]
   simp [construct, resolveMask, kPruned, kOrdinary]
+
+/-- a cell of level 1 has two hashes and `Cell.hash` is the LAST one (ofModel on a concrete info) -/
+example : (CtorOut.ofModel { kind := -1, bits := [], nrefs := 1, mask := 1, hashes := [[1], [2]], depths := [1, 1] }).hash = [2] := by
+  decide
 
 end SrcCtor
 
